@@ -1391,9 +1391,16 @@ pub fn replay(cfg: &Cfg, rep: &mut Report) {
     let family = cfg.str_or("family", "key").to_string();
     let coll = cfg.str_or("coll", "KeyExpTree").to_string();
     let ctor = cfg.str_or("ctor", "hint=8").to_string();
-    let path = cfg.str_or("ops-file", "").to_string();
-    let text = std::fs::read_to_string(&path).unwrap_or_default();
+    // the operation list comes from a file, or inline (`--ops "a;b;c"`: Miri's isolation has no file system)
+    let text = match cfg.get("ops") {
+        Some(inline) => inline.replace(';', "\n"),
+        None => std::fs::read_to_string(cfg.str_or("ops-file", "")).unwrap_or_default(),
+    };
     let lines: Vec<String> = text.lines().map(|l| l.trim().to_string()).filter(|l| !l.is_empty()).collect();
+    if lines.is_empty() {
+        eprintln!("replay: no operations given");
+        std::process::exit(64);
+    }
     rep.histories = 1;
     let mon = cfg.str_or("mon", "all").to_string();
     // fault witness?
